@@ -8,7 +8,7 @@ import nbformat
 
 import nbdime.log
 from ..diff_format import (
-    DiffOp, op_removerange, op_remove, op_patch, op_replace)
+    DiffOp, op_add, op_removerange, op_remove, op_patch, op_replace)
 from ..patching import patch
 from ..diffing.generic import json_equal
 from ..utils import (
@@ -570,6 +570,11 @@ def resolve_action(base, decision):
     elif a in ("clear", "remove"):
         key, = set(d.key for d in decision.local_diff + decision.remote_diff)
         if a == 'clear':
+            if isinstance(base, dict) and key not in base:
+                # Both sides added the key (with different values):
+                # add a cleared value of the type they added
+                added = (decision.local_diff + decision.remote_diff)[0].value
+                return [op_add(key, make_cleared_value(added))]
             return [op_replace(key, make_cleared_value(base[key]))]
         elif isinstance(base, (list, str)):
             return [op_removerange(key, 1)]
